@@ -27,9 +27,16 @@ HtmlNest == { <<HOpen[o]>> \o t1 \o <<HOpen[n]>> \o t2 \o <<HClose[n]>> \o t3 \o
 MdMarks == {"**", "__", "`", "~~", "||"}
 MdNest == { <<o>> \o t1 \o <<n>> \o t2 \o <<n>> \o t3 \o <<o>> \o t4
             : o \in MdMarks, n \in MdMarks \cup {"_", "*"}, t1 \in {<<>>, <<"a", " ">>}, t2 \in NT, t3 \in {<<>>, <<" ">>, <<"a">>}, t4 \in {<<>>, <<"a">>} }
+\* history: a parse must not depend on what was parsed before it in the same process.  First inputs leave something
+\* behind if anything can (unclosed elements after some text, broken tags, errors); the second is any short sequence.
+A10 == [k \in 1..10 |-> "a"]
+HtmlFirst == { A10 \o <<"<b>", "a">>, A10 \o <<"<i>", "<code>", "a">>, <<"<b", "a">>, A10 \o <<"<a href=\"http://x.y\">", "a">>, <<"</b>">> }
+MdFirst == { A10 \o <<"**", "a">>, A10 \o <<"`", "a">>, A10 \o <<"[", "a">>, <<"```go NL", "a">> }
 Seqs(T, n) == UNION { [1..k -> T] : k \in 0..n }
 Cases == { [cls |-> "html", in |-> [kind |-> "html", tokens |-> s]] : s \in Seqs(HtmlTokens, MaxLen) }
          \cup { [cls |-> "md", in |-> [kind |-> "md", tokens |-> s]] : s \in Seqs(MdTokens, MaxLen) }
+         \cup { [cls |-> "html", in |-> [kind |-> "html", first |-> f, tokens |-> s]] : f \in HtmlFirst, s \in Seqs(HtmlTokens, 2) }
+         \cup { [cls |-> "md", in |-> [kind |-> "md", first |-> f, tokens |-> s]] : f \in MdFirst, s \in Seqs(MdTokens, 2) }
          \cup { [cls |-> "html", in |-> [kind |-> "html", tokens |-> s]] : s \in HtmlNest }
          \cup { [cls |-> "md", in |-> [kind |-> "md", tokens |-> s]] : s \in MdNest }
 ASSUME Dump == \A c \in Cases : PrintT(ToJson(c))
